@@ -190,6 +190,7 @@ def run(check, prog):
     from . import c02 as _c02
     _c02.cluster_order_cap(check, prog)
     _c02.series_exit(check, prog)       # one-sphere cluster = single-sphere solution
+    _c02.psi_product_start(check, prog)
     # ... and returns numbers at all, whatever ran before (no read of a never-written
     # stack word in the compiled routines)
     _c02.work_arrays_defined(check, prog)
